@@ -277,7 +277,7 @@ def mentions(spec, formula, overrides):
     return nnum, nign, nargs
 
 
-def plan(tier, seed):
+def _plan(tier, seed):
     n = 4 if tier == 'quick' else 100
     return [{'k': k, 'n': n} for k in range(16)]
 
@@ -340,6 +340,9 @@ def run_book(ctx, bi):
 
 
 def run_shard(shard, ctx):
+    if isinstance(shard, dict) and 'mixed' in shard:
+        from ..mixed import run_mixed
+        return run_mixed(ctx, ID, shard['n'])
     if 'replay' in shard:
         return replay_case(ctx, ID, shard['replay'], exact=False)
     for i in range(shard['n']):
@@ -351,3 +354,8 @@ def finish(r, tier, seed):
     extra = flag_consistency_verdict(r, ID)
     return {**extra, 'functions': {k: v for k, v in r.counters.items() if k.startswith('fn:')},
             'silent_clauses_used': {k: v for k, v in r.counters.items() if k.startswith('silent_clause:')}}
+
+
+def plan(tier, seed):
+    # 'mixed': nests over the whole function set that use at least one function of this property (vf/mixed.py)
+    return _plan(tier, seed) + [{'mixed': k, 'n': 3 if tier == 'quick' else 60} for k in range(3 if tier == 'quick' else 8)]
